@@ -69,6 +69,10 @@ def make_pf(shape_kind, c, dtype, seen):
             return out[:, :1]
         if shape_kind == "(n,c)":
             return out
+        if shape_kind == "(n,c)F":
+            return np.asfortranarray(out)          # the same rows in column-major memory (what `np.asarray(columns).T` hands out)
+        if shape_kind == "(c,1)":
+            return out[0][:, None] if n == 1 else out      # one row's vector as a COLUMN, shape (c, 1)
         if shape_kind == "()":
             return out[0, 0] if n == 1 else out[:, 0]
         if shape_kind == "(c,)":
@@ -103,7 +107,8 @@ def main(run):
 
     # ---------------- SklearnWrapper / TorchWrapper canonical forms
     for wrapper_kind in ("sklearn", "torch"):
-        for shape_kind, c in [("(n,)", 1), ("(n,1)", 1), ("(n,c)", 1), ("(n,c)", 2), ("(n,c)", 3), ("()", 1), ("(c,)", 2), ("(c,)", 3), ("(c,)", 1)]:
+        for shape_kind, c in [("(n,)", 1), ("(n,1)", 1), ("(n,c)", 1), ("(n,c)", 2), ("(n,c)", 3), ("()", 1), ("(c,)", 2), ("(c,)", 3), ("(c,)", 1),
+                              ("(n,c)F", 2), ("(n,c)F", 3), ("(c,1)", 2), ("(c,1)", 3)]:
             for dtype in ("float64", "float32", "int64", "bool", "prob"):
                 if wrapper_kind == "torch" and dtype == "bool" and shape_kind in ("()",):
                     pass
@@ -151,7 +156,7 @@ def main(run):
                                     run.violation("key-order-dependence", f"{tag}: result depends on key order: {first!r} vs {got!r}", replay)
                             run.nontriv((wrapper_kind, shape_kind, c, dtype, use_names, "single"))
                     # list input
-                    if shape_kind in ("(n,)", "(n,1)", "(n,c)"):
+                    if shape_kind in ("(n,)", "(n,1)", "(n,c)", "(n,c)F"):
                         for n in (1, 2, 7):
                             for cont in (list, tuple, collections.deque):
                                 xs = [rand_x() for _ in range(n)]
@@ -163,7 +168,7 @@ def main(run):
                                     xs[1:] = [{f: v + 0.5 for f, v in xi.items()} for xi in xs[1:]]
                                 if use_names:
                                     xs = [{f: xi[f] for f in rnd.sample(feats, len(feats))} for xi in xs]
-                                exps = [canon_row(g([xi[f] for f in cols])[:(c if shape_kind == "(n,c)" else 1)]) for xi in xs]
+                                exps = [canon_row(g([xi[f] for f in cols])[:(c if shape_kind in ("(n,c)", "(n,c)F") else 1)]) for xi in xs]
                                 replay = {"wrapper": wrapper_kind, "shape": shape_kind, "c": c, "dtype": dtype, "feature_names": names,
                                           "xs": xs, "container": cont.__name__}
                                 del seen[:]
